@@ -120,6 +120,10 @@ pub enum Step {
 
 #[derive(Serialize, Deserialize, Clone, Debug)]
 pub struct Instance {
+    /// render through the real `driver::Driver` and its files under ./target_scc (the repeated
+    /// compilations then go through the same Driver object, i.e. its caches)
+    #[serde(default)]
+    pub via_driver: bool,
     pub keys: u64,
     /// earlier compilations in the same process instance
     pub history: Vec<Step>,
@@ -142,15 +146,72 @@ pub struct KReplay {
     pub minimised: bool,
 }
 
+/// the same stages through `driver::Driver::print_*` and the files it writes
+pub fn renderings_via_driver(src: &str, repeat: usize) -> Result<Vec<String>, String> {
+    use driver::paths::Paths;
+    use driver::{Driver, PrintMode};
+    let dir = format!("{VERIF_DIR}/work/kd-{}-{:?}", std::process::id(), std::thread::current().id()).replace(['(', ')'], "");
+    std::fs::create_dir_all(&dir).map_err(|e| e.to_string())?;
+    let old = std::env::current_dir().map_err(|e| e.to_string())?;
+    std::env::set_current_dir(&dir).map_err(|e| e.to_string())?;
+    let r = (|| -> Result<Vec<String>, String> {
+        let path = std::path::PathBuf::from("p.sc");
+        std::fs::write(&path, src).map_err(|e| e.to_string())?;
+        let mut d = Driver::new();
+        let mut out = Vec::new();
+        for round in 0..=repeat {
+            out.clear();
+            d.print_compiled(&path, PrintMode::Textual).map_err(|e| format!("{e:?}"))?;
+            d.print_focused(&path, PrintMode::Textual).map_err(|e| format!("{e:?}"))?;
+            d.print_shrunk(&path, PrintMode::Textual).map_err(|e| format!("{e:?}"))?;
+            d.print_linearized(&path, PrintMode::Textual).map_err(|e| format!("{e:?}"))?;
+            let rd = |p: std::path::PathBuf| std::fs::read_to_string(&p).map_err(|e| format!("{p:?}: {e}"));
+            out.push(rd(Paths::compiled_dir().join("p.txt"))?);
+            out.push(rd(Paths::focused_dir().join("p.txt"))?);
+            out.push(rd(Paths::shrunk_dir().join("p.txt"))?);
+            out.push(rd(Paths::linearized_dir().join("p.txt"))?);
+            let x = std::panic::catch_unwind(std::panic::AssertUnwindSafe(|| d.print_x86_64(&path, PrintMode::Textual).map(|_| ())));
+            out.push(match x {
+                Ok(Ok(())) => rd(Paths::x86_64_assembly_dir().join("p.asm"))?,
+                Ok(Err(e)) => return Err(format!("{e:?}")),
+                Err(e) => format!("PANIC: {}", seam::panic_msg(&e)),
+            });
+            let x = std::panic::catch_unwind(std::panic::AssertUnwindSafe(|| d.print_aarch64(&path, PrintMode::Textual).map(|_| ())));
+            out.push(match x {
+                Ok(Ok(())) => rd(Paths::aarch64_assembly_dir().join("p.asm"))?,
+                Ok(Err(e)) => return Err(format!("{e:?}")),
+                Err(e) => format!("PANIC: {}", seam::panic_msg(&e)),
+            });
+            let x = std::panic::catch_unwind(std::panic::AssertUnwindSafe(|| d.print_rv_64(&path, PrintMode::Textual)));
+            out.push(match x {
+                Ok(Ok(())) => rd(Paths::risc_v_assembly_dir().join("p.asm"))?,
+                Ok(Err(e)) => return Err(format!("{e:?}")),
+                Err(e) => format!("PANIC: {}", seam::panic_msg(&e)),
+            });
+            let _ = round;
+        }
+        Ok(out)
+    })();
+    let _ = std::env::set_current_dir(old);
+    let _ = std::fs::remove_dir_all(&dir);
+    r
+}
+
 pub fn run_instance(src: &str, inst: &Instance) -> Result<Vec<String>, String> {
     let r = seam::in_instance(inst.keys, || {
         for Step::Compile(s) in &inst.history {
             let _ = renderings(s);
         }
+        if inst.via_driver {
+            return renderings_via_driver(src, inst.repeat).map_err(|e| {
+                // the driver reports front-end errors in its own format; normalise to the kind
+                if e.contains("Parse") { "parse error".to_string() } else { "type error".to_string() }
+            });
+        }
         for _ in 0..inst.repeat {
             let _ = renderings(src);
         }
-        renderings(src)
+        renderings(src).map_err(|e| if e.starts_with("parse error") { "parse error".to_string() } else { "type error".to_string() })
     });
     match r {
         Ok(x) => x,
@@ -330,7 +391,7 @@ pub fn kworker(tier: &str, seed: u64, w: u64, n: u64) -> i32 {
     // every worker renders the whole corpus once under its own keys/environment/history
     for (pi, (name, src)) in progs.iter().enumerate() {
         let mut rng = Rng::keyed(seed, w * 1_000_003 + pi as u64, "k-corpus");
-        let inst = Instance { keys: rng.next() | 1, history: vec![], repeat: 0 };
+        let inst = Instance { via_driver: false, keys: rng.next() | 1, history: vec![], repeat: 0 };
         sum.instances += 1;
         sum.compilations += 1;
         match run_instance(src, &inst) {
@@ -359,7 +420,7 @@ pub fn kworker(tier: &str, seed: u64, w: u64, n: u64) -> i32 {
                     let (_, s) = &progs[rng.below(progs.len())];
                     history.push(Step::Compile(s.clone()));
                 }
-                Instance { keys: rng.next() | 1, history, repeat: [0, 0, 1, 2][rng.below(4)] }
+                Instance { via_driver: rng.pct(25), keys: rng.next() | 1, history, repeat: [0, 0, 1, 2][rng.below(4)] }
             };
             let a = mk(&mut rng);
             let b = mk(&mut rng);
